@@ -4,12 +4,20 @@ import (
 	"fmt"
 
 	pb "github.com/xuperchain/xupercore/bcs/ledger/xledger/xldgpb"
+	kledger "github.com/xuperchain/xupercore/kernel/ledger"
 )
 
 func (s *XModel) verifyInputs(tx *pb.Transaction) error {
 	//确保tx.TxInputs里面声明的版本和本地model是match的
 	for _, txIn := range tx.TxInputsExt {
-		verData, err := s.GetUncommited(txIn.Bucket, txIn.Key) //because previous txs in the same block write into batch cache
+		var verData *kledger.VersionedData
+		var err error
+		if len(tx.Blockid) > 0 {
+			verData, err = s.GetUncommited(txIn.Bucket, txIn.Key) //because previous txs in the same block write into batch cache
+		} else {
+			// an unconfirmed tx is written with a batch of its own: the batch cache (left by the last block) says nothing about it
+			verData, err = s.Get(txIn.Bucket, txIn.Key)
+		}
 		if err != nil {
 			return err
 		}
